@@ -45,10 +45,10 @@ start = s.index("## 13. Seeded changes and which checks catch them")
 end = s.index("## Appendix A")
 intro = '''## 13. Seeded changes and which checks catch them
 
-Seven rounds of independent sub-agents (one per claimed property and round)
+Eight rounds of independent sub-agents (one per claimed property and round)
 were given only the text of one property and a private scratch worktree, and
 asked for two changes each that break the property, keep the pinned suite green
-and need something specific to manifest; rounds two to seven were steered
+and need something specific to manifest; rounds two to eight were steered
 towards state left by earlier calls, failures at interior points, unspecified
 behaviour of dependencies and cooperating edits, and were told which ideas were
 already taken (variants A/B = round 1, C/D = round 2, E/F = round 3,
@@ -56,7 +56,9 @@ G/H = round 4, I/J = round 5; round 5 was pointed at shared infrastructure:
 `align.py`, `dispatch.py`, `clean.py`, `baseclass.py`, `utils/`; K/L = round 6,
 pointed at the process-wide environment, unusual-but-legal object structure and
 aliasing; M/N = round 7, pointed at sequences of different operations on the
-same objects, unusual argument types, interacting keywords and resources). Every change was confirmed by
+same objects, unusual argument types, interacting keywords and resources;
+O/P = round 8, pointed at numerical edge semantics, inner-axis shapes, text
+format interplay and ordering of validation and side effects). Every change was confirmed by
 `tools/confirm_seeds.sh` in a scratch worktree (patch applies; no newly
 failing test; the agent's demo fails with the change and passes without) before
 it was filed under `/verif/seeded/<id>/` (`patch.diff`, `demo.py`, `notes.md`
@@ -164,6 +166,20 @@ and to counting a built operand that reads back differently as a verdict in
 every check; C07-N to operands of the same storage layout over different names;
 C20-M/N to several differentiation variables in one call and to evaluation at
 2; C15-N to items taken out by basic indexing and overwritten in place.
+Round eight (13 of 22 missed at first): C11-O/P to bit-exact comparison where
+numpoly hands a reduction to numpy (precision probes over narrow floats that
+hold inexact numbers) and to unordered axis tuples with keepdims; C19-P and
+C15-O to tiny and subnormal coefficients; C14-P to falsy values (None, 0, "")
+stored in options; C18-O to negative lower bounds; C07-O to dense operands of
+66-84 terms; C16-O/P to a lowered decimal context, extreme magnitudes and
+complex coefficients with a tiny imaginary part; C12-O/P to exponents whose
+storage key is a digit-like or whitespace character and to broadcasting along
+an inner axis; C13-O/P to `skiprows` over the leading comment lines and to
+explicit encodings with non-ASCII keys; C17-O to `savetxt` round trips in the
+catalogue; C15-P to a float point for a cancelled-to-constant polynomial.
+The evaluation-at-2 stage added to C20 after round seven exposed a genuine
+defect on the unchanged tree in the multi-seed soak (§10: `q0**33` at the
+Python int 2 evaluated to 0), which was repaired.
 
 '''
 s = s[:start] + intro + table + "\n\n---------------------------------------------------------------------------\n\n" + s[end:]
